@@ -1850,6 +1850,34 @@ func (a *Act) invokeAlt(al IfaceAlt, method *types.Func, args []Value) Value {
 		}
 		return fromParent
 	}
+	if al.typ == in.opaqueType("crc32") {
+		// a hash.Hash32 made by crc32.New: its sum is the checksum of the data (the same value the
+		// crc32.Checksum intrinsic yields) iff exactly one Write happened since the last Reset;
+		// anything else written in between (an overlapping user of a shared object) makes it arbitrary
+		p := al.val.(PtrV)
+		id := p.alts[0].obj
+		st := a.st.heap[id].v.(StructV)
+		poly, n, sum := st.f[0].(*Term), st.f[1].(*Term), st.f[2].(*Term)
+		switch method.Name() {
+		case "Reset":
+			a.st.heap[id] = nv(Value(StructV{f: []Value{poly, BV(8, 0), BV(32, 0)}}))
+			in.events = append(in.events, "crc32 hash Reset")
+			return nil
+		case "Write":
+			sl := args[0].(SliceV)
+			first := Eq(n, BV(8, 0))
+			if !(first.IsConst() && first.val == 0) {
+				in.crcData, in.crcPoly = sl, poly
+			}
+			in.events = append(in.events, fmt.Sprintf("crc32 hash Write(data=obj%d off=%d)", sl.arr.alts[0].obj, sl.off))
+			nsum := Ite(first, in.named("crc", BVS(32)), in.fresh("crcmixed", BVS(32)))
+			a.st.heap[id] = nv(Value(StructV{f: []Value{poly, BvBin("bvadd", n, BV(8, 1)), nsum}}))
+			return TupleV{sl.len, nilIface()}
+		case "Sum32":
+			return sum
+		}
+		panic(unsupported("crc32 hash method " + method.Name()))
+	}
 	if al.typ == in.opaqueType("sha256") {
 		p := al.val.(PtrV)
 		id := p.alts[0].obj
